@@ -39,9 +39,9 @@ RULE = ("two streams.  (a) single calls; (b) HISTORIES (a third of the cases): a
         "projects supported, exhaustive initial allocation, all costs zero.  Every call also draws a CALL STYLE: initial "
         "allocation as list / tuple / set / generator expression / iter() / map / filter / BudgetAllocation / None, default vs "
         "explicit lexicographic tie-breaking, sat_class= vs prebuilt sat_profile=, positional vs keyword arguments, "
-        "analytics.  About 8 % of the calls use refuse_tie_breaking (judged where the definition and the code agree: must "
-        "raise when the first round has two tied best candidates, must return when nothing lies outside the initial "
-        "allocation).  (a) elections with 0..6 voters and 1..7 projects (<=6 when irresolute); all four ballot types x every shipped "
+        "analytics.  About 8 % of the calls use refuse_tie_breaking, judged on every election (must raise iff some round of "
+        "the definition has two tied best candidates); the fast path's raise without a tie is the recorded finding "
+        "c03_fast_path_refuse_consulted_up_front.  (a) elections with 0..6 voters and 1..7 projects (<=6 when irresolute); all four ballot types x every shipped "
         "satisfaction measure accepted by the ballot type x Profile/MultiProfile x every shipped tie-breaking rule "
         "accepted x is_sat_additive in {default, forced True, forced False} x resolute/irresolute x feasible initial "
         "allocations; costs from tie-rich pools (zeros, equal costs, halves/thirds), budgets on boundaries; "
@@ -353,10 +353,16 @@ def gen(rng, i, tier):
         j = rng.randrange(len(costs))
         if costs[j] <= pb.F(case["budget"]) and case["stream"] != "exact_tie":
             case["init"] = [j]
-    if case["stream"] not in ("near_tie", "history") and not case["solver"] and rng.random() < 0.11:
+    if case["stream"] not in ("near_tie", "history") and not case["solver"] and rng.random() < 0.14:
         case["tb"] = "refuse"
         if case["sat"] in NON_ADDITIVE and case["additive"]:
             case["additive"] = None                      # the definition is only claimed for the scheme of the measure
+        if case["resolute"] and eff_additive(case) and rng.random() < 0.8:
+            # keep the share of fast-path calls (recorded finding) small: most refuse calls exercise the general scheme
+            if rng.random() < 0.6:
+                case["additive"] = False
+            else:
+                case["resolute"] = False
         v = rng.random()
         if v < 0.25 and case["ballots"]:
             case["ballots"] = case["ballots"][:1]        # few voters: many equal densities
@@ -416,12 +422,12 @@ def impl(case):
             faulthandler.cancel_dump_traceback_later()
 
 
-# refuse_tie_breaking: at HEAD both schemes consult the rule (which raises as soon as it is asked anything) whenever
-# there is a candidate -- the general scheme whenever some project fits, the fast path whenever some project lies
-# outside the initial allocation -- not only when two candidates tie.  Until that is settled the answer is judged
-# only where all readings agree (Oracle.C03.refuse_region): a tie in the very first round (must raise) or no project
-# outside the initial allocation (must not raise).  Set to True to judge "raises iff some round has a tie" everywhere.
-REFUSE_JUDGE_EVERYWHERE = False
+# refuse_tie_breaking is judged on every election: "raises TieBreakingException iff some round of the greedy definition
+# has two or more tied best candidates, otherwise the outcome" (Oracle.C03.refuse_run).  The general scheme satisfies
+# it (repaired in /repo 6b1091c).  The additive fast path asks tie_breaking.order() for all projects outside the initial
+# allocation up front and therefore raises without any tie: recorded finding c03_fast_path_refuse_consulted_up_front
+# (harness/vharness/sig_c03.py); only that shape is suppressed.
+REFUSE_JUDGE_EVERYWHERE = True
 
 INIT_FORMS = ["list", "tuple", "set", "genexpr", "iter", "map", "filter", "budgetallocation", "none_if_empty"]
 
